@@ -284,6 +284,26 @@ func runC14(c *core.Ctx) {
 					}
 				})
 				okW = okW && any
+			} else if hc, isCall := wCall.Call.Args[2].(*ssa.Call); isCall && hc.Call.StaticCallee() != nil && hc.Call.StaticCallee().Blocks != nil && hc.Call.StaticCallee().Pkg == fn.Pkg {
+				// the cap map is built by a helper of the package: a map made there, every entry of which is a
+				// computeMinNumberOfNodes value, and the helper's only result
+				h := hc.Call.StaticCallee()
+				if rets := core.Returns(h); len(rets) == 1 {
+					if mk, isMk := core.RetOperand(rets[0], 0).(*ssa.MakeMap); isMk {
+						okW = true
+						any := false
+						core.Instrs(h, func(in ssa.Instruction) {
+							if mu, ok := in.(*ssa.MapUpdate); ok && mu.Map == ssa.Value(mk) {
+								any = true
+								if isMin(mu.Value) == nil {
+									okW = false
+								}
+							}
+						})
+						okW = okW && any
+						c.Analysed(fname(h))
+					}
+				}
 			}
 			c.Check(okW, "C14/eligible-cap-after-waiting-removal", "removeLeavingNodes/waiting-cap", wCall.Pos(),
 				"the waiting removal is capped by a fresh map of computeMinNumberOfNodes values",
